@@ -6,6 +6,7 @@ specs/C15/stream.h (assumed contract of istream::read / ostream::write), detail:
 """
 import astload
 from core import Fn, Target, VC
+import symmetry
 
 TU = 'drivers/inst_stream.cpp'
 D = 'specs/C15/'
@@ -299,6 +300,9 @@ def build(tier):
     # the writer without the "dims fit int32" precondition, on the 1-byte scalar instance (a 2 GiB tensor): FAILS (genuine defect)
     targets.append(Target('tensor_write_dims_i8_1', [tensor_write('tensor_write_dims', 'signed char', 1), write_u32(), write_u64(), write_i32(), write_castn(),
                                                      wr_ptr('write_ptr_i8', 'signed char'), hash_version()], D + 'tensor_i8_1.h', loops=0, unwind=NV_UNWIND, cbmc_flags=CADICAL))
+    # reader / writer symmetry of every serialisable class (field sequences derived from the ASTs of both bodies)
+    sym_targets, sym_summary = symmetry.targets()
+    targets += sym_targets
     return {
         'targets': targets, 'vcs': lemma_vcs(),
         'decided': [
@@ -312,6 +316,9 @@ def build(tier):
             'core/stream.h: read/write of scalars, arrays, read_cast/write_cast (symbolic count, loop contracts), read(string), read(vector<int32>): exact bytes consumed, values = stored values, '
             'failure and truncation propagate (never good after a short or failed read)',
             'detail::hash: memory safe, terminates, hash of nothing is 0, one element = hash_combine(0, bits); hash_combine injective in its second argument',
+            'reader/writer SYMMETRY of configurable_t, learner_t, feature_t, linear_t, gboost_model_t, single-feature / stump / hinge / table / dtree weak learners and dtree_node_t: each real body, '
+            'executed with every field transfer replaced by a logging stub, transfers exactly the field sequence found in the AST of its counterpart (same members, overloads / wire types, order), '
+            'succeeds only after all of them and never returns normally with a failed stream.  Sequences found on this run: ' + ' || '.join(sym_summary),
             'configurable_t::read/write: truncated / failed / newer-version stream => exception, normal return => stream good, versions stored in order, parameter list read once right after them; '
             'a complete header of the same or an older version always reaches the parameter list',
             'parameter range readers/writers (src/parameter.cpp, int64 range and pair range): throw unless every field was transferred on a good stream; members <-> wire fields in the same order '
@@ -328,7 +335,8 @@ def build(tier):
             'that every VALID header is accepted by the guard (the quotient max_size / dim is uninterpreted in CBMC): a stricter guard (> -> >=) is not noticed',
             'residual after the repair: nano::size multiplies right-to-left while the guard runs left-to-right; header dims (0, 2^31-1, 2^31-1, 2^31-1) pass the guard and the inner product '
             'overflows int64 inside detail::product (undefined behaviour by the letter, UBSan reports it; the result is multiplied by 0, size() = 0) -- recorded as an assumption, not an obligation',
-            'parameter_t::read / write themselves (variant storage, switch over the type tag, enum/string payloads), double-valued ranges, read(unique_ptr<T>) (factory lookup), '
+            'symmetry says nothing about a member that BOTH bodies forget, nor about the values transferred (only which field goes through which overload in which order)',
+            'parameter_t::read / write themselves (variant storage, switch over the type tag: no fixed field sequence, the symmetry walker refuses branches), double-valued ranges, read(unique_ptr<T>) (factory lookup), '
             'write(vector<T>) (std::any_of + lambda), read(vector<string>), feature / learner / model readers (per-field critical(!read...) pattern only)',
         ],
         'assumptions': [
@@ -344,6 +352,9 @@ def build(tier):
             'std::string / std::vector resize(n): throws or holds exactly n elements; containers abstracted to the element at a ghost index',
             'read/write of std::vector<parameter_t> inside configurable_t: throws, fails or consumes >= 8 bytes (stub nv_read_parameters / nv_write_parameters)',
             'nano::major/minor/patch_version are arbitrary constants',
+            'symmetry targets: one transfer of a field (::nano::read / ::nano::write, any overload) on a failed stream does nothing, otherwise succeeds or sets failbit (at any field); a base class '
+            'read/write returns normally only with a good stream (it is itself a symmetry target); every class type other than the stream is erased (struct nv_opaque), expressions over erased '
+            'values are arbitrary; field identity = (member or variable name without m_, wire type of the resolved overload / explicit read_cast-write_cast template argument)',
             'make_comp(flag) = flag != 0 ? LE : LT, make_flag(comp) = comp is LE ? 1 : 0 (one-liners over std::variant, stubs nv_make_comp / nv_make_flag)',
             'nano::write(stream, string_view) inside the parameter writers: two fields (length, chars) or failure (stub nv_write_name; the real function is verified in target write_string)',
             'write(string_view) precondition: the length fits the uint32 it is stored in',
@@ -361,6 +372,20 @@ def replay(rp):
     import re
     import replaylib
     out = {'reproduced': False, 'runs': []}
+    simple = {'read_string': 'string_reuse', 'read_vec_i32': 'string_reuse', 'hash_f64': 'payload_bits', 'hash_combine': 'payload_bits'}
+    if rp.get('target') in simple:
+        exe = replaylib.build_header_only('replay/C15_replay.cpp', 'C15_replay')
+        rc, so, se = replaylib.run_driver(exe, [simple[rp['target']]])
+        out['runs'].append({'scenario': simple[rp['target']], 'exit': rc, 'output': so.strip()})
+        out['reproduced'] = rc == 1
+        return out
+    if rp.get('target', '').startswith('sym_'):
+        # reader / writer symmetry: round trip + every strict prefix of configured objects on the real library (needs a build)
+        exe = replaylib.build_with_library('replay/C15_model_replay.cpp', 'C15_model_replay')
+        rc, so, se = replaylib.run_driver(exe, [], timeout=600)
+        out['runs'].append({'scenario': 'write -> read -> write and every strict prefix, real library', 'exit': rc, 'output': so.strip()[:4000]})
+        out['reproduced'] = rc == 1
+        return out
     if rp.get('target', '').startswith('tensor_write'):
         # (every tensor writer target: the same template; natively only the 1-byte scalar instance is small enough to build)
         # the verifier's dimension if a block of that many bytes can be mapped here (<= 4 GiB), then the smallest one: 2^31
